@@ -1,6 +1,8 @@
 package main
 
 import (
+	"path/filepath"
+	"sort"
 	"runtime/debug"
 	"crypto/sha256"
 	"encoding/hex"
@@ -85,9 +87,16 @@ func main() {
 		fs := flag.NewFlagSet("fn", flag.ExitOnError)
 		repo := fs.String("repo", "/repo", "repository")
 		name := fs.String("name", "", "function under contract (short or full name)")
+		only := fs.String("only", "", "comma-separated full names of the functions under contract to verify")
 		prop := fs.String("property", "", "property filter")
 		verbose := fs.Bool("v", false, "verbose")
 		fs.Parse(os.Args[2:])
+		onlySet = map[string]bool{}
+		for _, n := range strings.Split(*only, ",") {
+			if n != "" {
+				onlySet[n] = true
+			}
+		}
 		os.Exit(cmdFn(*repo, *name, *prop, *verbose))
 	case "check":
 		fs := flag.NewFlagSet("check", flag.ExitOnError)
@@ -96,6 +105,14 @@ func main() {
 		tier := fs.String("tier", "quick", "quick|thorough")
 		fs.Parse(os.Args[2:])
 		os.Exit(cmdCheck(*repo, *prop, *tier))
+	case "affected":
+		// affected -repo W -base B: the functions under contract whose verification can be influenced by the difference
+		// between the two trees (their own code, or any function of the package they can reach, changed)
+		fs := flag.NewFlagSet("affected", flag.ExitOnError)
+		repo := fs.String("repo", "/repo", "tree under check")
+		base := fs.String("base", "", "reference tree")
+		fs.Parse(os.Args[2:])
+		os.Exit(cmdAffected(*repo, *base))
 	case "replay":
 		fs := flag.NewFlagSet("replay", flag.ExitOnError)
 		repo := fs.String("repo", "/repo", "repository")
@@ -138,6 +155,9 @@ func cmdFn(repo, name, prop string, verbose bool) int {
 		if name != "" && ct.Short != name && ct.Fn != name && !strings.HasSuffix(ct.Fn, name) && !strings.HasSuffix(ct.Short, "."+name) {
 			continue
 		}
+		if len(onlySet) > 0 && !onlySet[ct.Fn] {
+			continue
+		}
 		r := e.verifyFunction(ct, prop, "quick")
 		debug.FreeOSMemory() // thousands of path states per large function: give the memory back before the next one
 		fmt.Printf("== %s: %d paths %v in %.1fs (fork checks %d)\n", ct.Fn, r.Paths, r.ByKind, r.Seconds, e.forkChecks)
@@ -172,4 +192,159 @@ func atoiEnv(name string, def int) int {
 		}
 	}
 	return def
+}
+
+var onlySet map[string]bool
+
+// normFingerprint: the SSA text of a function without positions (a moved but unchanged function is unchanged)
+func normFingerprint(fn *ssa.Function) string {
+	var sb strings.Builder
+	fn.WriteTo(&sb)
+	var keep []string
+	for _, l := range strings.Split(sb.String(), "\n") {
+		if strings.HasPrefix(l, "#") {
+			continue
+		}
+		keep = append(keep, l)
+	}
+	h := sha256.Sum256([]byte(strings.Join(keep, "\n")))
+	return hex.EncodeToString(h[:8])
+}
+
+func packageFunctions(e *Engine) map[string]*ssa.Function {
+	out := map[string]*ssa.Function{}
+	for fn := range ssautilAll(e.prog) {
+		if rootPkg(fn) == e.pkg {
+			out[fn.String()] = fn
+		}
+	}
+	return out
+}
+
+func cmdAffected(repo, base string) int {
+	if base == "" {
+		fmt.Println("ALL")
+		return 0
+	}
+	same := func(f string) bool {
+		a, e1 := os.ReadFile(filepath.Join(repo, f))
+		b, e2 := os.ReadFile(filepath.Join(base, f))
+		return e1 == nil && e2 == nil && string(a) == string(b)
+	}
+	if !same("schema.sql") || !same("verif_contracts.go") || !same("go.mod") {
+		fmt.Println("ALL")
+		return 0
+	}
+	e1, err := loadEngine(repo)
+	if err != nil {
+		fmt.Println("ALL")
+		return 0
+	}
+	e2, err := loadEngine(base)
+	if err != nil {
+		fmt.Println("ALL")
+		return 0
+	}
+	f1, f2 := packageFunctions(e1), packageFunctions(e2)
+	changed := map[string]bool{}
+	for n, fn := range f1 {
+		if g, ok := f2[n]; !ok || normFingerprint(fn) != normFingerprint(g) {
+			changed[n] = true
+		}
+	}
+	for n := range f2 {
+		if _, ok := f1[n]; !ok {
+			changed[n] = true
+		}
+	}
+	// package-local references of each function (calls, closures, function values)
+	refs := map[string][]string{}
+	for n, fn := range f1 {
+		seen := map[string]bool{}
+		for _, b := range fn.Blocks {
+			for _, in := range b.Instrs {
+				for _, op := range in.Operands(nil) {
+					if op == nil || *op == nil {
+						continue
+					}
+					if g, ok := (*op).(*ssa.Function); ok && rootPkg(g) == e1.pkg && !seen[g.String()] {
+						seen[g.String()] = true
+						refs[n] = append(refs[n], g.String())
+					}
+				}
+				// interface method calls may reach any method of that name in the package
+				if c, ok := in.(ssa.CallInstruction); ok && c.Common().IsInvoke() {
+					m := c.Common().Method.Name()
+					for gn, g := range f1 {
+						if g.Signature.Recv() != nil && g.Name() == m && !seen[gn] {
+							seen[gn] = true
+							refs[n] = append(refs[n], gn)
+						}
+					}
+				}
+			}
+		}
+		for _, an := range fn.AnonFuncs {
+			if !seen[an.String()] {
+				refs[n] = append(refs[n], an.String())
+			}
+		}
+	}
+	cs, err := loadContracts(filepath.Join(repo, "verif_contracts.go"))
+	if err != nil {
+		fmt.Println("ALL")
+		return 0
+	}
+	e1.contracts = cs
+	var out []string
+	for _, fnn := range cs.order {
+		fn := e1.findFunction(fnn)
+		if fn == nil {
+			out = append(out, fnn)
+			continue
+		}
+		hit := false
+		visited := map[string]bool{}
+		stack := []string{fn.String()}
+		for len(stack) > 0 && !hit {
+			n := stack[len(stack)-1]
+			stack = stack[:len(stack)-1]
+			if visited[n] {
+				continue
+			}
+			visited[n] = true
+			if changed[n] {
+				hit = true
+				break
+			}
+			for _, callee := range refs[n] {
+				// a callee that is used through its contract while this function is verified does not contribute its
+				// body (its own contract covers that), unless its contract is only trusted
+				if g, ok := f1[callee]; ok && callee != fn.String() {
+					if cct := cs.lookup(fnName(g)); cct != nil && cct.Modular && cct.Flags["trusted"] == "" {
+						e1.curFn = fnn
+						if e1.modularHere(cct) {
+							continue
+						}
+					}
+				}
+				stack = append(stack, callee)
+			}
+		}
+		if hit {
+			out = append(out, fnn)
+		}
+	}
+	var ch []string
+	for n := range changed {
+		ch = append(ch, n)
+	}
+	sort.Strings(ch)
+	fmt.Fprintf(os.Stderr, "changed functions: %s\n", strings.Join(ch, " "))
+	if len(out) == 0 {
+		fmt.Println("NONE")
+		return 0
+	}
+	fmt.Println(strings.Join(out, ","))
+	return 0
 }
